@@ -1,13 +1,15 @@
 """Helper shared by the C15 / C16 checks: run TLC with -dump and hand the dumped states to a
 worker in parallel, translating only the state variables the worker needs (the machine
 modules keep an object heap in the state which the replay does not look at; skipping it
-makes parsing several times faster than vlib.map_states)."""
+makes parsing several times faster than vlib.map_states).  Several TLC jobs can be run
+concurrently (dump_many) before their dumps are mapped one after the other."""
 import json
 import multiprocessing as mp
 import os
 import re
 import shutil
 import tempfile
+from concurrent.futures import ThreadPoolExecutor
 
 import vlib
 
@@ -32,21 +34,52 @@ def _chunk_worker(text):
     return _WORKER(_parse_chunk(text))
 
 
-def map_states(module, worker, keep=None, cfg=None, constants=None, workers=None, timeout=7200,
-               heap='8g', procs=None, **kw):
-    """Like vlib.map_states; keep = names of the state variables to translate (None = all)."""
+def map_dump(path, worker, keep=None, procs=None, chunk_bytes=1 << 20):
+    """apply worker(list_of_states) to chunks of a TLC dump file in forked processes"""
     global _WORKER, _KEEP
-    scratch = tempfile.mkdtemp(prefix='glomverif_dump_')
+    _WORKER, _KEEP = worker, (set(keep) if keep else None)
     try:
-        path = os.path.join(scratch, 'states')
-        res = vlib.run_tlc(module, cfg=cfg, constants=constants, workers=workers, timeout=timeout,
-                           heap=heap, extra=('-dump', path), **kw)
-        vlib.tlc_must_pass(res, '%s/%s' % (module, cfg or module))
-        _WORKER, _KEEP = worker, (set(keep) if keep else None)
         ctx = mp.get_context('fork')
         with ctx.Pool(procs or vlib.NCPU) as pool:
-            results = list(pool.imap_unordered(_chunk_worker, vlib._dump_chunks(path + '.dump')))
-        return res, results
+            return list(pool.imap_unordered(_chunk_worker, vlib._dump_chunks(path, chunk_bytes)))
     finally:
         _WORKER = _KEEP = None
-        shutil.rmtree(scratch, ignore_errors=True)
+
+
+class Jobs:
+    """run several TLC jobs concurrently; jobs with dump=True leave <scratch>/<n>.dump"""
+
+    def __init__(self):
+        self.scratch = tempfile.mkdtemp(prefix='glomverif_jobs_')
+
+    def run(self, jobs, parallel=4):
+        """jobs: list of dict(module, cfg, constants, dump(bool), workers, coverage, label)
+        -> list of (job, tlc result, dump path or None) in the same order"""
+        def one(k):
+            j = jobs[k]
+            extra, path = (), None
+            if j.get('dump'):
+                path = os.path.join(self.scratch, 'states_%d' % k)
+                extra = ('-dump', path)
+                path += '.dump'
+            res = vlib.run_tlc(j['module'], cfg=j.get('cfg'), constants=j.get('constants'),
+                               workers=j.get('workers', 4), heap=j.get('heap', '4g'), extra=extra,
+                               coverage=j.get('coverage', False), timeout=j.get('timeout', 3600))
+            return j, res, path
+        with ThreadPoolExecutor(max_workers=parallel) as ex:
+            return list(ex.map(one, range(len(jobs))))
+
+    def close(self):
+        shutil.rmtree(self.scratch, ignore_errors=True)
+
+
+def map_states(module, worker, keep=None, cfg=None, constants=None, workers=None, procs=None, **kw):
+    """Like vlib.map_states; keep = names of the state variables to translate (None = all)."""
+    jobs = Jobs()
+    try:
+        (j, res, path), = jobs.run([dict(module=module, cfg=cfg, constants=constants, dump=True,
+                                         workers=workers or vlib.NCPU, **kw)])
+        vlib.tlc_must_pass(res, '%s/%s' % (module, cfg or module))
+        return res, map_dump(path, worker, keep, procs)
+    finally:
+        jobs.close()
